@@ -32,7 +32,7 @@ SHRINK_BUDGET_S = float(os.environ.get('VERIF_SHRINK_S', '45'))
 
 
 class Sub:
-    def __init__(self, name, strategy, check, quick, thorough, tag=None, rule='', replay_only=False):
+    def __init__(self, name, strategy, check, quick, thorough, tag=None, rule='', thorough_strategy=None):
         self.name = name
         self.strategy = strategy
         self.check = check
@@ -40,6 +40,7 @@ class Sub:
         self.thorough = thorough
         self.tag = tag or (lambda case, failure: None)
         self.rule = rule
+        self.thorough_strategy = thorough_strategy
 
 
 class _Abort(BaseException):
@@ -119,8 +120,9 @@ def _settings(n, shrink=False):
                     phases=[Phase.generate, Phase.shrink] if shrink else [Phase.generate])
 
 
-def _collect(sub, n, sd):
+def _collect(sub, n, sd, tier='quick'):
     stats = Stats()
+    strategy = sub.thorough_strategy if (tier == 'thorough' and sub.thorough_strategy is not None) else sub.strategy
 
     def body(case):
         stats.evals += 1
@@ -155,7 +157,7 @@ def _collect(sub, n, sd):
             if len(stats.samples) < 3 or (stats.evals % 97 == 0 and len(stats.samples) < 6):
                 stats.samples.append({'sub': sub.name, 'case': jsonable(case)})
 
-    test = seed(sd)(_settings(n)(given(sub.strategy)(body)))
+    test = seed(sd)(_settings(n)(given(strategy)(body)))
     try:
         test()
     except Exception as e:  # noqa: BLE001
@@ -163,7 +165,7 @@ def _collect(sub, n, sd):
     return stats
 
 
-def _shrink(sub, n, sd, target_sig, first_pickle):
+def _shrink(sub, n, sd, target_sig, first_pickle, tier='quick'):
     """Re-run with shrinking, raising only for target_sig; return the smallest failing case."""
     best = {'pk': first_pickle}
     t0 = time.time()
@@ -191,7 +193,8 @@ def _shrink(sub, n, sd, target_sig, first_pickle):
                 raise
             return
 
-    test = seed(sd)(_settings(n, shrink=True)(given(sub.strategy)(body)))
+    strategy = sub.thorough_strategy if (tier == 'thorough' and sub.thorough_strategy is not None) else sub.strategy
+    test = seed(sd)(_settings(n, shrink=True)(given(strategy)(body)))
     try:
         test()
     except _Abort:
@@ -202,11 +205,11 @@ def _shrink(sub, n, sd, target_sig, first_pickle):
 
 
 def _shard_job(args):
-    modname, subname, n, sd = args
+    modname, subname, n, sd, tier = args
     import importlib
     mod = importlib.import_module(modname)
     sub = next(s for s in mod.SUBS if s.name == subname)
-    st = _collect(sub, n, sd)
+    st = _collect(sub, n, sd, tier)
     return subname, st
 
 
@@ -305,9 +308,9 @@ def run_property(mod, tier, sd, replay=None, only=None):
         if tier == 'thorough' and NSHARDS > 1 and n >= NSHARDS * 4:
             per = n // NSHARDS
             for k in range(NSHARDS):
-                jobs.append((mod.__name__, sub.name, per, sd * 1000 + k + 1))
+                jobs.append((mod.__name__, sub.name, per, sd * 1000 + k + 1, tier))
         else:
-            jobs.append((mod.__name__, sub.name, n, sd))
+            jobs.append((mod.__name__, sub.name, n, sd, tier))
     if tier == 'thorough' and len(jobs) > 1:
         ctx = multiprocessing.get_context('fork')
         with ctx.Pool(min(NSHARDS, len(jobs))) as pool:
@@ -338,7 +341,7 @@ def run_property(mod, tier, sd, replay=None, only=None):
         n = sub.quick if tier == 'quick' else max(sub.thorough // NSHARDS, sub.quick)
         case = pickle.loads(b['pickle'])
         try:
-            case = _shrink(sub, n, b['seed'], sig, b['pickle'])
+            case = _shrink(sub, n, b['seed'], sig, b['pickle'], tier)
         except Exception as e:  # noqa: BLE001
             notes.append('shrink failed for %s: %r' % (sig, e))
         status, sig2, f = run_case(sub, case)
